@@ -169,6 +169,9 @@ impl Group for DestGroup {
             let mut w2 = (d2.len() as u16).to_be_bytes().to_vec(); w2.extend_from_slice(&d2);
             v.push(Case { lines: vec![format!("dest udprelay 000401020304 {} ~{ms} {} {}", hex_compact(&w[..k]), hex_compact(&w[k..]), hex_compact(&w2))] });
         }
+        // an abandoned read into a large buffer, then data, then reads into small buffers
+        v.push(Case { lines: vec![format!("dest aread r:64 c:{} c:{} x r:8 r:8 r:8 r:8 r:8 r:8 r:8", hex(&(0u8..36).collect::<Vec<u8>>()), hex(&(100u8..110).collect::<Vec<u8>>()))] });
+        v.push(Case { lines: vec!["dest aread r:3 r:100 c:0102030405 r:2 r:2 r:2 r:2 x r:1".to_string()] });
         // the opposite direction: a long datagram followed by shorter ones (a stale receive buffer must not show)
         v.push(Case { lines: vec![format!("dest udpback {} 0102 03 {}", hex_compact(&vec![0xabu8; 1472]), hex_compact(&vec![0x11u8; 65507]))] });
         v.push(Case { lines: vec!["dest udpback 01 0203 040506 07".to_string()] });
@@ -246,6 +249,21 @@ impl Group for DestGroup {
             let mut toks = vec![];
             for (i, c) in cs.iter().enumerate() { if i > 0 && rng.chance(1, 2) { toks.push(format!("~{}", rng.pick(&[1u64, 900, 2100, 5100, 11000, 61000]))); } toks.push(hex_compact(c)); }
             return Case { lines: vec![format!("dest udprelay {}", toks.join(" "))] };
+        }
+        if k < 91 {
+            // reads through the AsyncRead side of an owned Stream: buffers of assorted sizes, abandoned reads, chunks in between
+            let mut toks = vec![];
+            let mut closed = false;
+            for _ in 0..rng.range(3, 14) {
+                match rng.below(10) {
+                    0..=3 => toks.push(format!("r:{}", rng.pick(&[1usize, 2, 3, 8, 9, 64, 100, 8192]))),
+                    4..=7 => if !closed { let n = if rng.chance(1, 6) { *rng.pick(&[0usize, 1, 300]) } else { rng.range(1, 40) as usize }; toks.push(format!("c:{}", hex_compact(&rng.bytes(n)))); },
+                    8 => { toks.push("x".into()); closed = true; }
+                    _ => toks.push(format!("r:{}", rng.range(1, 50))),
+                }
+            }
+            for _ in 0..4 { toks.push(format!("r:{}", rng.pick(&[1usize, 8, 64]))); }
+            return Case { lines: vec![format!("dest aread {}", toks.join(" "))] };
         }
         // resolver histories over seeded names, literals and localhost
         let hosts: [Vec<u8>; 3] = gen_hosts(rng);
@@ -475,6 +493,42 @@ async fn exec_line(toks: &[&str], out: &mut Outcome) -> String {
                 out.oracle.push(OracleFail { sig: "datagram_boundaries_changed/stream_to_udp".into(), detail: format!("{} datagrams encoded in the stream (sizes {:?}), the target received {} (sizes {:?})", want.len(), want.iter().map(|d| d.len()).collect::<Vec<_>>(), got.len(), got.iter().map(|d| d.len()).collect::<Vec<_>>()) });
             }
             format!("[{}]", got.iter().map(|d| hex_compact(d)).collect::<Vec<_>>().join(","))
+        }
+        ["dest", "aread", script @ ..] => {
+            // the `AsyncRead` side of an owned `Stream` (not the StreamReader behind it): `c:<hex>` = a chunk arrives,
+            // `r:<n>` = a read into an n-byte buffer that is abandoned after 1 ms of virtual time if it has not
+            // completed (a timeout, a losing select! branch), `x` = the sending half goes away
+            use tokio::io::AsyncReadExt;
+            let (tx, rx) = mpsc::unbounded_channel::<Bytes>();
+            let (wtx, _wrx) = mpsc::unbounded_channel::<(u32, Bytes)>();
+            let (mut stream, _srx) = Stream::new(1, StreamReader::new(1, rx), wtx);
+            let mut tx = Some(tx);
+            let mut res: Vec<String> = vec![];
+            let mut written: Vec<u8> = vec![];
+            let mut read: Vec<u8> = vec![];
+            for t in script {
+                if let Some(hx) = t.strip_prefix("c:") {
+                    let Some(d) = unhex(hx) else { return "bad-op".into() };
+                    if let Some(tx) = tx.as_ref() { written.extend_from_slice(&d); let _ = tx.send(Bytes::from(d)); }
+                } else if let Some(n) = t.strip_prefix("r:") {
+                    let Ok(n) = n.parse::<usize>() else { return "bad-op".into() };
+                    let mut buf = vec![0u8; n];
+                    match tokio::time::timeout(t1, stream.read(&mut buf)).await {
+                        Err(_) => res.push("block".into()),
+                        Ok(Ok(0)) => res.push("eof".into()),
+                        Ok(Ok(k)) => { read.extend_from_slice(&buf[..k]); res.push(format!("d{}", hex_compact(&buf[..k]))); }
+                        Ok(Err(_)) => res.push("err".into()),
+                    }
+                    // O (C01): whatever reads were abandoned, the bytes obtained are a prefix of the bytes that arrived
+                    if !written.starts_with(&read) {
+                        out.oracle.push(OracleFail { sig: "not_a_prefix/stream_async_read".into(), detail: format!("{} bytes read through the stream's AsyncRead side are not a prefix of the {} bytes that arrived", read.len(), written.len()) });
+                    }
+                    if res.last().map(|r| r == "eof").unwrap_or(false) && read != written {
+                        out.oracle.push(OracleFail { sig: "eof_before_all_data/stream_async_read".into(), detail: format!("end of stream after {} of {} bytes", read.len(), written.len()) });
+                    }
+                } else if *t == "x" { tx = None; } else { return "bad-op".into(); }
+            }
+            res.join(",")
         }
         ["dest", "udpback", dgrams @ ..] => {
             // the opposite direction of the server's relay (udp_to_stream inside handle_udp_over_tcp): a loopback UDP target
